@@ -199,6 +199,13 @@ def check_decode(part: Part, x: bytes, family: str, alloc: bool = False):
         part.mark_nontrivial(("dec", sig if len(sig) <= 8 else (len(sig), sig[:3], sig[-3:]), rlen > CAP))
 
 
+def _safe_hex(fn, data: bytes) -> str:
+    try:
+        return bytes(fn(data)).hex()
+    except Exception as e:  # samples are illustration only; failures are reported by the clauses
+        return f"raised {e!r}"
+
+
 def _rle(x: bytes):
     out = []
     for b, g in itertools.groupby(x):
@@ -222,7 +229,7 @@ def _unit_A(arg):
     for n in range(0, max_len - len(prefix) + 1):
         for t in itertools.product(ENC_ALPHA, repeat=n):
             check_encode(part, prefix + b"".join(t), "A")
-    part.sample({"family": "A", "plain": (prefix + b"\x00\x00\x01").hex(), "compressed": bytes(compress(prefix + b"\x00\x00\x01")).hex()}, limit=1)
+    part.sample({"family": "A", "plain": (prefix + b"\x00\x00\x01").hex(), "compressed": _safe_hex(compress, prefix + b"\x00\x00\x01")}, limit=1)
     return part.dump()
 
 
@@ -254,7 +261,7 @@ def _unit_B(arg):
                         if L % 256 == 1:
                             check_decode(part, left + b"\x00" * (L // 256 + 1), "B")
     if lo == 0:
-        part.sample({"family": "B", "run": 256, "compressed": bytes(compress(b"\x01" + b"\x00" * 256 + b"\xff")).hex()}, limit=1)
+        part.sample({"family": "B", "run": 256, "compressed": _safe_hex(compress, b"\x01" + b"\x00" * 256 + b"\xff")}, limit=1)
         if thorough:
             for a in BOUNDARY_RUNS:
                 for b in BOUNDARY_RUNS:
